@@ -3,6 +3,7 @@ package main
 import (
 	"fmt"
 	"go/constant"
+	"go/types"
 	"strings"
 
 	"golang.org/x/tools/go/ssa"
@@ -184,6 +185,8 @@ func runC19(c *Ctx) {
 		}
 	}
 
+	ruleConstIndexGuarded(c)
+
 	R.Rule("R-errcount", "E6+E2", "errThreshold is 3; protocolError increments the count once and closes exactly when it exceeds the threshold; empty, unknown and unparsable commands all use protocolError", 7)
 	if o := c.A.Object("errThreshold"); o != nil {
 		if k, ok := o.(interface{ Val() constant.Value }); ok {
@@ -260,4 +263,127 @@ func ruleLimiterBypass(c *Ctx) {
 			c.obUnreach("refusal", in, `lineLimitReader.LineLimit == 0`)
 		}
 	})
+}
+
+// minLenFromFacts derives the least possible length of the value described by
+// d from the length facts holding at a site.
+func minLenFromFacts(facts FactSet, d string) int64 {
+	lb := int64(0)
+	excluded := map[int64]bool{}
+	exact := int64(-1)
+	pfx := "builtin:len(" + d + ") "
+	for a := range facts {
+		if !strings.HasPrefix(a, pfx) {
+			continue
+		}
+		_, op, r, ok := splitAtom(a)
+		if !ok {
+			continue
+		}
+		var k int64
+		if _, err := fmt.Sscanf(r, "%d", &k); err != nil {
+			continue
+		}
+		switch op {
+		case ">=":
+			if k > lb {
+				lb = k
+			}
+		case ">":
+			if k+1 > lb {
+				lb = k + 1
+			}
+		case "!=":
+			excluded[k] = true
+		case "==":
+			exact = k
+		}
+	}
+	if exact >= 0 {
+		return exact
+	}
+	for excluded[lb] {
+		lb++
+	}
+	return lb
+}
+
+// ruleConstIndexGuarded: every constant index / constant slice bound applied to
+// a string or slice on the server's input path is dominated by length guards
+// ON THAT SAME VALUE that make it in range. (A guard on the length of a
+// different string - e.g. an upper-cased copy, which can be longer - does not
+// count; parseCmd runs outside the handler's recover, so an out-of-range index
+// there kills the process.)
+func ruleConstIndexGuarded(c *Ctx) {
+	R := c.R
+	R.Rule("R-const-index-guarded", "E3 must-facts + length arithmetic", "constant indexes and slice bounds on strings/slices in the server's parsing and command handling are within the length established by guards on the same value", 12)
+	exempt := map[string]string{
+		"(*parser).readByte/parser.s": "guarded through peekByte's ok result (len(p.s) != 0 inside peekByte)",
+		"(*parser).expectByte/parser.s": "guarded by the len(p.s) == 0 test of the same function",
+		"decodeUTF8AddrXtext$1/param0":  "the callback only receives matches of eUOrDCharRe: one character (handled first) or \\x{H+} with at least 5 octets",
+	}
+	for _, f := range c.P.AllFuncs() {
+		n := funcName(f)
+		isServer := strings.HasPrefix(n, "(*Conn).") || strings.HasPrefix(n, "(*parser).") || strings.HasPrefix(n, "(*Server).") ||
+			n == "parseCmd" || n == "parseArgs" || n == "parseHelloArgument" || n == "cutPrefixFold" || strings.HasPrefix(n, "decode") || n == "checkNotifySet"
+		if !isServer {
+			continue
+		}
+		ff := c.F.Analyze(f)
+		check := func(in ssa.Instruction, x ssa.Value, need int64, what string) {
+			switch x.Type().Underlying().(type) {
+			case *types.Basic, *types.Slice:
+			default:
+				return // arrays and pointers to arrays have a static length
+			}
+			d := describe(x)
+			if strings.Contains(d, "alloc:varargs") || strings.Contains(d, "alloc:slicelit") || strings.Contains(d, "alloc:complit") {
+				return // literal backing arrays
+			}
+			if _, ok := exempt[n+"/"+d]; ok {
+				R.Ob(c.siteKey(in, what+" of "+d+" (frozen exception)"), c.P.InstrPos(in), true, "")
+				return
+			}
+			got := minLenFromFacts(ff.At(in), d)
+			// strings.Split always returns at least one element
+			if need == 1 && strings.HasPrefix(d, "strings.Split(") && got < 1 {
+				got = 1
+			}
+			R.Ob(c.siteKey(in, what+" of "+d), c.P.InstrPos(in), got >= need,
+				fmt.Sprintf("%s needs len(%s) >= %d but the guards on that value only establish >= %d: an input of that shape panics (parseCmd runs outside the recover of Conn.handle: the whole server goes down)", what, d, need, got))
+		}
+		allInstrs(f, func(in ssa.Instruction) {
+			switch x := in.(type) {
+			case *ssa.Index:
+				if k, ok := constInt(x.Index); ok {
+					check(in, x.X, k+1, fmt.Sprintf("index [%d]", k))
+				}
+			case *ssa.IndexAddr:
+				if k, ok := constInt(x.Index); ok {
+					check(in, x.X, k+1, fmt.Sprintf("index [%d]", k))
+				}
+			case *ssa.Lookup:
+				if _, isStr := x.X.Type().Underlying().(*types.Basic); isStr {
+					if k, ok := constInt(x.Index); ok {
+						check(in, x.X, k+1, fmt.Sprintf("index [%d]", k))
+					}
+				}
+			case *ssa.Slice:
+				var need int64 = -1
+				if x.Low != nil {
+					if k, ok := constInt(x.Low); ok && k > need {
+						need = k
+					}
+				}
+				if x.High != nil {
+					if k, ok := constInt(x.High); ok && k > need {
+						need = k
+					}
+				}
+				if need > 0 {
+					check(in, x.X, need, fmt.Sprintf("slice bound %d", need))
+				}
+			}
+		})
+	}
 }
